@@ -83,6 +83,8 @@ InvBalanced     == Balanced(d)
 InvNoEmptyBranch == NoEmptyBranch(d)
 InvAllWritten   == AllWritten(d)
 InvAdjMeaning   == AdjMeaning(d)
+InvBcMeaning    == BcMeaning(d)
+InvFastEquiv    == FastEquiv(d)
 
 (* write . parse = id: the specification's own reader reads the written     *)
 (* string back to the same molecule - atoms in order, bonded pairs and       *)
